@@ -1255,7 +1255,14 @@ def install_queue(it):
         if not l:
             it.raise_exc('queue.Empty')
         return l.pop(0)
-    Queue = model_class(it, 'Queue', 'queue', {'__init__': q_init, 'put': q_put, 'get': q_get})
+
+    def q_empty(it, args, kw):
+        return not args[0].fields['items'].items
+
+    def q_qsize(it, args, kw):
+        return len(args[0].fields['items'].items)
+    Queue = model_class(it, 'Queue', 'queue', {'__init__': q_init, 'put': q_put, 'get': q_get, 'empty': q_empty,
+                                                'qsize': q_qsize})
     m = ModuleVal('queue', {'Queue': Queue, 'Empty': bi['queue.Empty']})
     it.model_modules['queue'] = m
     return m
